@@ -305,9 +305,12 @@ def run_extrapolate(col):
     it = new_interp()
     GL = it.get("felupe.quadrature._gauss_legendre:GaussLegendre")
     tol = Fraction(1, 10 ** 50)
-    for elname, dim in (("felupe.element._quad:Quad", 2), ("felupe.element._hexahedron:Hexahedron", 3)):
+    # the bi-/tri-quadratic templates use the 3-point rule, whose middle points have zero coordinates (left where they are by the inversion,
+    # coordinate by coordinate)
+    for elname, dim, order in (("felupe.element._quad:Quad", 2, 1), ("felupe.element._hexahedron:Hexahedron", 3, 1),
+                               ("felupe.element._quad:BiQuadraticQuad", 2, 2), ("felupe.element._hexahedron:TriQuadraticHexahedron", 3, 2)):
         el = it.call(it.get(elname), [], {})
-        rule = it.call(GL, [], dict(order=1, dim=dim))
+        rule = it.call(GL, [], dict(order=order, dim=dim))
         inv = it.call_method(rule, "inv", [])
         gp = npmodel.to_obj(it.getattr(rule, "points"))
         ip = npmodel.to_obj(it.getattr(inv, "points"))
@@ -352,8 +355,8 @@ def run_extrapolate_source(col, cell_type):
         cells = np.array([[0, 1, 4, 3], [1, 2, 5, 4]])
         elname, dim = "felupe.element._quad:Quad", 2
     elif cell_type == "quad9":
-        # bi-quadratic cells with the 3x3 rule: the quadrature weights differ from point to point (only the cell-mean variant, mean=True,
-        # applies to a rule of this order)
+        # bi-quadratic cells with the 3x3 rule: the quadrature weights differ from point to point; the middle points of the rule have zero
+        # coordinates (C19.O6 decides that the inverted rule maps them to the mid-edge / centre nodes)
         pts = [[0, 0], [1, 0], [2, 0], [0, 1], [1, 1], [2, 1], [F_(1, 2), 0], [F_(3, 2), 0], [F_(1, 2), 1], [F_(3, 2), 1], [0, F_(1, 2)], [1, F_(1, 2)], [2, F_(1, 2)],
                [F_(1, 2), F_(1, 2)], [F_(3, 2), F_(1, 2)]]
         cells = np.array([[0, 1, 4, 3, 6, 11, 8, 10, 13], [1, 2, 5, 4, 7, 12, 9, 11, 14]])
@@ -387,7 +390,7 @@ def run_extrapolate_source(col, cell_type):
             return sum((H[a][q] * vals[idx + (q, c)] for q in range(npc)), ZERO)
 
         for average in (True, False):
-            for mean in ((False, True) if order == 1 else (True,)):
+            for mean in (False, True):
                 def chk(shape=shape, vals=vals, average=average, mean=mean):
                     out = npmodel.to_obj(np.asarray(it.call(ex, [vals.copy(), reg], dict(average=average, mean=mean))))
                     nrow = len(pts) if average else cells.shape[0] * npc
